@@ -16,11 +16,13 @@ import (
 // Mem is a whole-address-space memory: byte at a = overlay[a] if written/preset, else prng.Hash(seed, a).
 // It implements memory.Memory for bus.Bus and provides closures for cpualt.Bus; every address it is handed is logged.
 type Mem struct {
-	Seed   uint64
-	Ovl    map[uint32]byte
-	Writes []uint32 // addresses written, in order
-	MaxA   uint32   // largest address ever handed to the backend (reads and writes)
-	Reads  int
+	Seed     uint64
+	Ovl      map[uint32]byte
+	Writes   []uint32 // addresses written, in order
+	MaxA     uint32   // largest address ever handed to the backend (reads and writes)
+	Reads    int
+	LogReads bool
+	ReadLog  []uint32 // addresses read, in order (only when LogReads)
 }
 
 func NewMem(seed uint64) *Mem { return &Mem{Seed: seed, Ovl: map[uint32]byte{}} }
@@ -36,6 +38,9 @@ func (m *Mem) Read(a uint32) byte {
 		m.MaxA = a
 	}
 	m.Reads++
+	if m.LogReads {
+		m.ReadLog = append(m.ReadLog, a)
+	}
 	return m.Get(a)
 }
 func (m *Mem) Write(a uint32, v byte) {
@@ -60,15 +65,15 @@ func (m *Mem) Clone() *Mem {
 
 // Regs is the architectural + bookkeeping state shared by both interpreters (exported fields of cpu.CPU).
 type Regs struct {
-	PC, SP, RA, RX, RY, RD         uint16
-	RAh, RAl, RXl, RYl, RDBR, RK   byte
-	N, V, M, X, D, I, Z, C, B, E   byte
-	Cycles                         byte
-	AllCycles                      uint64
-	Stopped                        bool
-	WDM                            byte
-	PPC                            uint16
-	PRK                            byte
+	PC, SP, RA, RX, RY, RD       uint16
+	RAh, RAl, RXl, RYl, RDBR, RK byte
+	N, V, M, X, D, I, Z, C, B, E byte
+	Cycles                       byte
+	AllCycles                    uint64
+	Stopped                      bool
+	WDM                          byte
+	PPC                          uint16
+	PRK                          byte
 }
 
 // Canon renders the state in the protocol's canonical order (hex).
